@@ -138,6 +138,18 @@ def playback(crate_dir, target_dir, h, timeout):
 def run_harnesses(root, repo, harnesses, target_dir, jobs=8, timeout=1500):
     crate_dir = os.path.join(os.path.dirname(target_dir), 'kani-crate')
     prepare_crate(root, repo, crate_dir)
+    # build only the modules the requested harnesses live in (a module that is not needed cannot break the build)
+    need = set(h['name'].split('::')[0] for h in harnesses) | set(['reference', 'corpus', 'util', 'model'])
+    lib = os.path.join(crate_dir, 'src', 'lib.rs')
+    keep = []
+    for ln in open(lib).read().split('\n'):
+        m = re.match(r'\s*(pub )?mod (\w+);', ln)
+        if m and m.group(2) not in need:
+            if keep and keep[-1].strip() == '#[cfg(kani)]':
+                keep.pop()
+            continue
+        keep.append(ln)
+    open(lib, 'w').write('\n'.join(keep))
     t0 = time.time()
     # one build first (shared by every harness), so that a compile error is reported once
     env = dict(os.environ, CARGO_NET_OFFLINE='true')
